@@ -237,6 +237,7 @@ class Edit:
 class Inspection:
     def __init__(self, lines):
         self.frags = {"mani": [], "verify": []}      # lists of (id, [Edit], err)
+        self.inos = {}                               # (tag, id) -> inode
         self.mv = {}                                 # fragment id -> "ok n" / "err ..."
         self.state = {}
         self.files = {"sst": {}, "trash": {}}        # name -> (meta, recomputed, ents) or ("ERR", cls)
@@ -255,6 +256,7 @@ class Inspection:
             elif t[0] == "FRAG":
                 cur = [t[2], [], None]
                 self.frags[t[1]].append(cur)
+                self.inos[(t[1], t[2])] = t[3] if len(t) > 3 else "?"
             elif t[0] == "EDIT":
                 cur[1].append(Edit(ln))
             elif t[0] in ("EDITERR", "FRAGERR"):
